@@ -18,12 +18,12 @@ def tasks(tier, seed):
             txt = '#define VP_FS_CAP 4096\n#define CFG_LEVEL %d\n#define CFG_CONTAINER %d\n#define HEADER_INITIAL %d\n#define T_LO %d\n' \
                   '#define T_HI %d\n' % (lvl, cs, hi, lo, lo + step) + src
             ts.append(Task('trunc.l%d_c%d_h%d.t%d' % (lvl, cs, hi, lo), txt, 'h_trunc', None,
-                           opts=dict(validate=False, extra=['zlib_stub.cpp'], max_wall=1500, max_steps=60000000, enum_limit=400),
+                           opts=dict(validate=False, extra=['zlib_stub.cpp'], limit_is_hang=True, max_wall=1500, max_steps=6000000, enum_limit=400),
                            desc='file of 4 objects (symbolic fields) written by the library (level %d, container size %d, %s header), '
                                 'cut off at every offset in [%d, %d), then opened, read to the end and closed' % (
                                     lvl, cs, 'initial all-zero statistics' if hi else 'final', lo, lo + step),
                            reach=('h_trunc:end',), bounds='4 objects; every truncation offset',
-                           kinds={'assert', 'memory', 'uncaught_exception', 'terminate', 'deadlock', 'limit'}))
+                           kinds={'assert', 'memory', 'uncaught_exception', 'terminate', 'deadlock', 'hang', 'limit'}))
     meta = dict(
         level='model_checking',
         explanation='A valid file is produced by the real writer inside the symbolic run; for EVERY truncation offset (complete '
